@@ -238,7 +238,7 @@ func buildStrCases(tier string) []strCase {
 
 // ---------------------------------------------------------------- long brackets
 
-const longAlpha = "]=[\n\ra"
+const longAlpha = "]=[\n\ra\\"
 
 func nthOver(alpha string, i uint64, maxLen int) string {
 	k := uint64(len(alpha))
@@ -486,6 +486,14 @@ func literalFamilies(tier string) []*core.Family {
 					next = gapTokens[gap]
 				}
 				vs = append(vs, viol(fmt.Sprintf("gap filler=%q between=%s|%s", f.text, prev, next), "%q\nexpected trace [%s], observed %s", src, gapWant, clip(o.String())))
+			} else if gap == 0 && !f.onlyEnd {
+				// line tracking through the filler: the stray ')' is on a known line
+				src := "emit(1) " + f.text + ")"
+				wantLine := 1 + reflex.CountEOL(f.text)
+				o := run(src)
+				if o.Status != "compile" || errLine(o.Err) != wantLine {
+					vs = append(vs, viol(fmt.Sprintf("gap-line filler=%q", f.text), "%q: the stray ')' is on line %d; observed %s", src, wantLine, clip(o.String())))
+				}
 			}
 			return out(vs, o.String(), true)
 		}})
